@@ -198,6 +198,14 @@ func buildGuard(a *ref.AP, t *sim.Tape) (p mq.Packet, ops []drv.Op, err error) {
 	return
 }
 
+// buildGuardZero is buildGuard on a zero-value literal (&mq.Publish{} ...).
+func buildGuardZero(a *ref.AP, t *sim.Tape) (p mq.Packet, ops []drv.Op, err error) {
+	if pi := sim.Guard(func() { p, ops, err = drv.BuildZero(a, t) }); pi != nil {
+		return nil, ops, fmt.Errorf("panic in setter: %s at %s", pi.Value, pi.Site)
+	}
+	return
+}
+
 // overlongRL re-encodes the remaining length of a frame in a non-minimal form
 // with extra continuation bytes (the library accepts such headers; MQTT does
 // not allow them, so such a frame is "content-malformed with a truthful
